@@ -430,144 +430,13 @@ def radix_parser(ctx, facts, rp, clause, cfg):
         ctx.fail(clause + ".radix-exact", "floating accumulation only (%s)" % cfg, "the digits of a prefixed literal are only accumulated in floating point (acc·radix + digit, rounded at every step): literals with more than 53 significant bits can differ from the correctly rounded double; no exact integer parse (from_str_radix) is made", where=b_.where(bi, si), fn=b_.key)
     else:
         ctx.unread(clause + ".radix-exact", "digit parser (%s)" % cfg, "neither an integer parse nor a floating accumulation found in the digit parser", where=rp.where(), fn=rp.key)
-    if PN.loops_of(rp) and not any(re.search(r"Iterator(>)?::(all|fold)$", callee_path(t) or "") for b_ in [rp] + [b for b in facts.fns() if b.key.startswith(rp.key + "::{closure#")] for _, t in b_.calls()):
-        ctx.unread(clause + ".radix-results", "digit parser (%s)" % cfg, "the digit parser is written with explicit loops: its guards and its valuation are not read (the ban on other digit tests and the radix set still apply)", where=rp.where(), fn=rp.key)
-        return
-    ints = [(bi, t) for bi, t in rp.calls() if re.search(r"^core::num::<impl [ui](64|128|size)>::from_str_radix$", callee_path(t) or "")]
-    units = [rp] + [b for b in facts.fns() if b.key.startswith(rp.key + "::{closure#")]
-    folds = [(b, bi, t) for b in units for bi, t in b.calls() if re.search(r"Iterator(>)?::fold$", callee_path(t) or "")]
-    if not ints and not folds:
-        raise Inconclusive("radix parser: neither an integer parse nor a digit fold found in %s" % rp.key)
-    # ---- what is valued: the digits parameter itself, in the radix parameter
+    # ---- guards, results, accumulation: read off the path summaries of the parser (rules/pathsum.py), the case normal
+    # form of its results (rules/optnorm.py) and its accumulations (rules/accum.py) — see _RadixReader below
     str_arg = [i + 1 for i, x in enumerate(facts.items[rp.key].get("inputs", [])) if x == "&str"]
     rad_arg = [i + 1 for i, x in enumerate(facts.items[rp.key].get("inputs", [])) if x == "u32"]
     if len(str_arg) != 1 or len(rad_arg) != 1:
         raise Inconclusive("radix parser signature (&str, u32) not recognised")
-    sa, ra = str_arg[0], rad_arg[0]
-    for bi, t in ints:
-        a0, a1 = strip_refs(rp.trace(t["args"][0])), strip_refs(rp.trace(t["args"][1]))
-        ctx.check(a0 == ("arg", sa) and a1 == ("arg", ra), clause + ".radix-parse-args", "the integer parser is given the digits and the radix themselves (%s)" % cfg, "from_str_radix(%s, %s)" % (show_expr(a0), show_expr(a1)), where=rp.where(bi), fn=rp.key, nontrivial=True)
-    # ---- guards: non-empty and all digits of the radix, on every path to the valuation
-    targets = [bi for bi, _ in ints] or [bi for b, bi, _ in folds if b is rp]
-    created = []
-    for bi, si, st in rp.stmts():
-        if st["k"] == "Assign" and st["rv"]["k"] == "Aggregate" and st["rv"].get("agg") == "Closure":
-            created.append(bi)
-    targets = targets or created
-    nonempty, alldig = [], []
-    for sb in sorted(rp.reachable()):
-        tt = rp.blocks[sb]["term"]
-        if tt["k"] != "SwitchInt" or tt.get("dty") != "bool":
-            continue
-        e = strip_refs(rp.trace(tt["discr"]))
-        neg = False
-        while e[0] == "unop" and e[1] == "Not":
-            neg = not neg
-            e = strip_refs(e[2])
-        if e[0] != "call" or not e[1]:
-            continue
-        pth = e[1]["path"]
-        if re.search(r"PartialEq.*::(eq|ne)$", pth):
-            x, y = strip_refs(e[2][0]), strip_refs(e[2][1])
-            for p_, q_ in ((x, y), (y, x)):
-                if q_[0] == "const" and const_value(q_[1]) == "" and p_ == ("arg", sa):
-                    is_empty_truth = pth.endswith("::eq") != neg
-                    nonempty.append((sb, bool_edge(rp, sb, not is_empty_truth)))
-        elif pth.endswith("::is_empty") and strip_refs(e[2][0]) == ("arg", sa):
-            nonempty.append((sb, bool_edge(rp, sb, neg)))
-        elif re.search(r"Iterator(>)?::all$", pth):
-            it = strip_refs(e[2][0])
-            clos = strip_refs(e[2][1])
-            over_digits = it[0] == "call" and it[1]["path"] == "core::str::<impl str>::chars" and strip_refs(it[2][0]) == ("arg", sa)
-            good_pred = False
-            if clos[0] == "agg" and clos[1].get("closure"):
-                cb = facts.body(clos[1]["closure"])
-                r = strip_refs(cb.trace(0))
-                if r[0] == "call" and r[1] and r[1]["path"] == "std::char::methods::<impl char>::is_digit":
-                    c_arg = strip_refs(r[2][0])
-                    r_arg = strip_refs(cb.xtrace(cb.blocks[r[3]]["term"]["args"][1]))
-                    good_pred = c_arg == ("arg", 2) and r_arg in (("carg", rp.key, ra), ("arg", ra))
-                    if not good_pred:
-                        good_pred = c_arg == ("arg", 2) and expr_mentions(r_arg, lambda y: y == ("arg", ra))
-            ctx.check(over_digits and good_pred, clause + ".radix-digit-test", "every character of the digits must be a digit of the radix (char::is_digit(c, radix)) (%s)" % cfg,
-                      "the all-digits test is %s over %s" % (show_expr(clos)[:60], show_expr(it)[:60]), where=rp.where(sb), fn=rp.key, nontrivial=True)
-            alldig.append((sb, bool_edge(rp, sb, not neg)))
-    ctx.check(bool(nonempty), clause + ".radix-empty-test", "an emptiness test on the digits exists (%s)" % cfg, "no test for an empty digit string: `0x` alone would be a number", where=rp.where(), fn=rp.key, nontrivial=True)
-    ctx.check(bool(alldig), clause + ".radix-digit-test-site", "an all-digits test exists (%s)" % cfg, "no test that every character is a digit of the radix", where=rp.where(), fn=rp.key, nontrivial=True)
-    for ti, tb in enumerate(targets):
-        for (sb, edge) in nonempty:
-            ctx.check(edge_dominates(rp, sb, edge, tb), clause + ".radix-guard-empty", "digits are valued only when there is at least one (valuation %d, %s)" % (ti, cfg), "the valuation at %s is reachable with an empty digit string (or only with one)" % rp.where(tb), where=rp.where(sb), fn=rp.key, nontrivial=True)
-        for (sb, edge) in alldig:
-            ctx.check(edge_dominates(rp, sb, edge, tb), clause + ".radix-guard-digits", "digits are valued only when all are digits of the radix (valuation %d, %s)" % (ti, cfg), "the valuation at %s is reachable although a character is not a digit of the radix (or only then)" % rp.where(tb), where=rp.where(sb), fn=rp.key, nontrivial=True)
-    # the only other result is None
-    r = strip_refs(rp.trace(0))
-    cands = [strip_refs(x) for x in r[2]] if r[0] == "phi" else [r]
-    nones = [c for c in cands if c[0] == "agg" and c[1].get("variant") == "None"]
-    vals = [c for c in cands if c not in nones]
-    is_int_parse = lambda y: y[0] == "call" and y[1] and "from_str_radix" in y[1]["path"]
-    is_fold = lambda y: y[0] == "call" and y[1] and re.search(r"Iterator(>)?::fold$", y[1]["path"]) is not None
-    unknown = [c for c in vals if not expr_mentions(c, is_int_parse) and not expr_mentions(c, is_fold)]
-    ctx.check(len(nones) >= 1 and vals and not unknown, clause + ".radix-results", "the parser returns None, the parsed integer as a double, or the digit fold (%s)" % cfg, "results: %s" % [show_expr(c)[:60] for c in cands], where=rp.where(), fn=rp.key, nontrivial=True)
-    # ---- the integer path: value as f64, failure falls through to the fold (or None)
-    for c in vals:
-        if not expr_mentions(c, is_int_parse):
-            continue
-        spine = []
-        x = c
-        while x[0] == "call" and x[1] and re.search(r"^std::(option::Option|result::Result)::<.*>::(or_else|ok|map|or|and_then)$", x[1]["path"]):
-            spine.append((x[1]["path"].rsplit("::", 1)[1], x))
-            x = strip_refs(x[2][0])
-        names = [n for n, _ in spine]
-        combinator_form = is_int_parse(x) and "map" in names and "ok" in names
-        direct_form = False
-        if c[0] == "agg" and c[1].get("variant") == "Some" and c[2]:
-            v = strip_refs(c[2][0])
-            direct_form = v[0] == "cast" and v[1] == "IntToFloat" and is_int_parse(strip_payload(v[2]))
-        ctx.check(combinator_form or direct_form, clause + ".radix-int-path", "value = the integer parsed by from_str_radix, converted with `as f64` (%s)" % cfg,
-                  "the valuation is %s" % show_expr(c)[:160], where=rp.where(), fn=rp.key, nontrivial=True)
-        for n, e in spine:
-            if n == "map":
-                cl = strip_refs(e[2][1])
-                if cl[0] == "agg" and cl[1].get("closure"):
-                    rr = strip_refs(facts.body(cl[1]["closure"]).trace(0))
-                    ctx.check(rr[0] == "cast" and rr[1] == "IntToFloat" and strip_refs(rr[2]) == ("arg", 2), clause + ".radix-int-cast", "the parsed integer is converted with `as f64` (%s)" % cfg, "the parsed integer becomes %s" % show_expr(rr), where=rp.where(), fn=rp.key, nontrivial=True)
-    # ---- the fold: from 0, acc·radix + digit
-    for (b, bi, t) in folds:
-        it = strip_refs(b.xtrace(t["args"][0]))
-        seed = strip_refs(b.trace(t["args"][1]))
-        cl = strip_refs(b.trace(t["args"][2]))
-        src_ok = it[0] == "call" and it[1]["path"] == "core::str::<impl str>::chars" and expr_mentions(it, lambda y: y in (("arg", sa), ("carg", rp.key, sa)))
-        ctx.check(src_ok, clause + ".radix-fold-source", "the fold runs over the digits, front to back (%s)" % cfg, "the fold runs over %s" % show_expr(it)[:100], where=b.where(bi), fn=b.key, nontrivial=True)
-        sv = None
-        if seed[0] == "agg" and seed[1].get("variant") == "Some":
-            s0 = strip_refs(seed[2][0])
-            sv = const_value(s0[1]) if s0[0] == "const" else None
-        elif seed[0] == "const":
-            sv = const_value(seed[1])
-        ctx.check(sv == 0.0 and sv is not None and not isinstance(sv, bool), clause + ".radix-fold-seed", "the fold starts from 0 (%s)" % cfg, "the fold starts from %s" % show_expr(seed), where=b.where(bi), fn=b.key, nontrivial=True)
-        if cl[0] == "agg" and cl[1].get("closure"):
-            cb = facts.body(cl[1]["closure"])
-            rr = strip_refs(cb.trace(0))
-            cs = [strip_refs(x) for x in rr[2]] if rr[0] == "phi" else [rr]
-            steps = []
-            for c in cs:
-                v = strip_refs(c[2][0]) if c[0] == "agg" and c[1].get("variant") == "Some" and c[2] else (c if c[0] == "binop" else None)
-                if v is not None:
-                    steps.append(v)
-            ok = False
-            how = [show_expr(v)[:120] for v in steps]
-            for v in steps:
-                if v[0] == "binop" and v[1] == "Add":
-                    for m_, d_ in ((strip_refs(v[2]), strip_refs(v[3])), (strip_refs(v[3]), strip_refs(v[2]))):
-                        if m_[0] == "binop" and m_[1] == "Mul":
-                            fs = [strip_payload(strip_cast(m_[2])), strip_payload(strip_cast(m_[3]))]
-                            is_acc = lambda y: y == ("arg", 2)
-                            is_rad = lambda y: expr_mentions(y, lambda z: z[0] == "field" and strip_refs(z[1]) == ("arg", 1)) or y == ("arg", ra)
-                            mul_ok = (is_acc(fs[0]) and is_rad(fs[1])) or (is_acc(fs[1]) and is_rad(fs[0]))
-                            dd = strip_payload(strip_cast(d_))
-                            dig_ok = dd[0] == "call" and dd[1] and dd[1]["path"] == "std::char::methods::<impl char>::to_digit" and strip_refs(dd[2][0]) == ("arg", 3)
-                            ok = ok or (mul_ok and dig_ok)
-            ctx.check(ok and len(steps) == 1, clause + ".radix-fold-step", "each step is acc·radix + digit(c) (%s)" % cfg, "the fold step is %s" % how, where=cb.where(), fn=cb.key, nontrivial=True)
+    _RadixReader(ctx, facts, rp, clause, cfg, str_arg[0], rad_arg[0]).run()
 
 
 def strip_cast(e):
@@ -777,3 +646,705 @@ def table_charset(facts, pred):
                 return None
             acc.extend(ivs)
     return iv_norm(acc)
+
+
+# ---------------------------------------------------------------------------------------------------------------------
+# the digit parser of prefixed literals, read without naming a statement shape
+#
+#   guards   on every path (path summaries; a path cut at a loop back edge still carries the atoms taken before the
+#            loop) that reaches a *valuation* — a call of <int>::from_str_radix, an f64 fold/try_fold, the header of
+#            a loop that carries an f64, a to_digit call, or a call that is handed a closure containing one of these —
+#            the path has established before it "digits is not empty" and "every character is a digit of the radix";
+#   results  every result of every path, with Option/Result combinators expanded into cases, is None, or
+#            Some(<payload of from_str_radix(digits, radix)> as f64), or an accumulation over chars() of the digits
+#            seeded with 0.0 whose step is carried·(radix as f64) + (to_digit(c, radix) as f64);
+#   three outcomes per clause: satisfied / violated (read, and it says something else) / not read (ctx.unread).
+# ---------------------------------------------------------------------------------------------------------------------
+from . import optnorm as _ON, accum as _AC      # noqa: E402
+from .core import _residual_variant              # noqa: E402
+
+INT_PARSE = re.compile(r"^core::num::<impl [ui](8|16|32|64|128|size)>::from_str_radix$")
+TO_DIGIT = "std::char::methods::<impl char>::to_digit"
+IS_DIGIT = "std::char::methods::<impl char>::is_digit"
+CHARS = "core::str::<impl str>::chars"
+ITER_ALL = re.compile(r"Iterator(>)?::(all|any)$")
+ITER_NEXT = re.compile(r"Iterator(>)?::next$")
+LOSSLESS_F64 = re.compile(r"^(<f64 as std::convert::From<(u8|u16|u32|i8|i16|i32|f32)>>::from|std::convert::num::<impl std::convert::From<(u8|u16|u32|i8|i16|i32|f32)> for f64>::from)$")
+INTO_ITER = re.compile(r"(IntoIterator>::into_iter|Iterator(>)?::by_ref)$")
+ACC, ELEM = ("acc",), ("elem",)
+
+
+class _PosWalker(_PS.Walker):
+    """Path summaries that remember at which block(s) each atom is decided, so that "the path has established the
+    fact before it reaches the valuation" can be asked of a path."""
+
+    def __init__(self, body, **kw):
+        self._term_block = {id(blk["term"]): bi for bi, blk in enumerate(body.blocks)}
+        self.key_blocks = {}
+        _PS.Walker.__init__(self, body, **kw)
+
+    def classify(self, e, t):
+        out = _PS.Walker.classify(self, e, t)
+        bi = self._term_block.get(id(t))
+        for (_, key, _v) in out:
+            if key is not None:
+                self.key_blocks.setdefault(key, set()).add(bi)
+        return out
+
+    def atom_pos(self, p, key):
+        bs = self.key_blocks.get(key, ())
+        for i, b in enumerate(p.blocks):
+            if b in bs:
+                return i
+        return -1
+
+
+def strip_conv(e):
+    """Peel reference plumbing, `as` casts and the lossless conversions f64::from(u32) off a number."""
+    while True:
+        e = strip_refs(e)
+        if e[0] == "cast":
+            e = e[2]
+        elif e[0] == "call" and e[1] and LOSSLESS_F64.match(e[1].get("path") or "") and e[2]:
+            e = e[2][0]
+        else:
+            return e
+
+
+def _show(e, n=160):
+    """show_expr with the payload placeholders of the case normal form spelled out."""
+    def sub(x, depth=0):
+        if not isinstance(x, tuple) or not x or depth > 30:
+            return x
+        if x[0] == "payload" and len(x) > 2:
+            return ("call", {"path": "payload-of"}, [sub(x[2], depth + 1)], -1)
+        if x == ACC:
+            return ("call", {"path": "acc"}, [], -1)
+        if x == ELEM:
+            return ("call", {"path": "c"}, [], -1)
+        return tuple(sub(y, depth + 1) if isinstance(y, tuple) else ([sub(z, depth + 1) if isinstance(z, tuple) else z for z in y] if isinstance(y, list) else y) for y in x)
+    return show_expr(sub(e))[:n]
+
+
+def _is_none(v):
+    v = strip_refs(v)
+    return (v[0] == "agg" and v[1].get("variant") == "None") or _residual_variant(v) == "None"
+
+
+def _some_payload(v):
+    v = strip_refs(v)
+    if v[0] == "agg" and v[1].get("variant") == "Some" and len(v[2]) == 1:
+        return v[2][0]
+    return None
+
+
+def _payload_src(e):
+    """The Option/Result-valued expression whose success payload e is (after normalisation), else None."""
+    e = strip_refs(e)
+    if e[0] == "payload":
+        return strip_refs(e[2])
+    if e[0] == "field" and e[2] == 0 and isinstance(e[1], tuple) and e[1][0] == "downcast" and e[1][2] in ("Some", "Ok", "Continue"):
+        n = _ON.normalise(e)       # a payload projection inside a source expression (normalise does not descend into sources)
+        if n[0] == "payload":
+            return strip_refs(n[2])
+    return None
+
+
+def _upvars(e, depth=0):
+    """`(*env).i` of a closure whose environment is the known closure aggregate: the captured operand itself
+    (closures called by reference read their captures through one more deref than optnorm's binding resolves)."""
+    if not isinstance(e, tuple) or not e or depth > 40:
+        return e
+    if e[0] == "field" and len(e) > 2 and isinstance(e[2], int) and isinstance(e[1], tuple):
+        base = strip_refs(e[1])
+        if base[0] == "agg" and base[1].get("agg") == "Closure" and e[2] < len(base[2]):
+            return _upvars(base[2][e[2]], depth + 1)
+    out = []
+    for x in e:
+        if isinstance(x, tuple):
+            out.append(_upvars(x, depth + 1))
+        elif isinstance(x, list):
+            out.append([_upvars(y, depth + 1) if isinstance(y, tuple) else y for y in x])
+        else:
+            out.append(x)
+    return tuple(out)
+
+
+def _closure_cases(facts, clo, argvals):
+    """optnorm's cases of calling a closure, with the captures resolved to the creator's operands."""
+    cc = _ON._closure_cases(facts, clo, argvals, 0) if clo[0] == "agg" and clo[1].get("closure") else None
+    if cc is None:
+        return None
+    return [(tuple((k, val, _upvars(_ON.SRC_EXPRS.get(k) or ())) for k, val in conds), _upvars(v)) for conds, v in cc]
+
+
+class _AccumUnit:
+    """What accum.find needs of a unit: the parser with its closures."""
+
+    def __init__(self, root, bodies):
+        self.root, self.bodies = root, bodies
+
+    def calls(self, pred=None):
+        return iter(())
+
+
+class _RadixReader:
+    def __init__(self, ctx, facts, rp, clause, cfg, sa, ra):
+        self.ctx, self.facts, self.rp, self.K, self.cfg, self.sa, self.ra = ctx, facts, rp, clause, cfg, sa, ra
+        self.units = [rp] + [b for b in facts.fns() if b.key.startswith(rp.key + "::{closure#")]
+        self.loops = {h: blocks for (h, blocks, _srcs) in PN.loops_of(rp)}
+        self.in_loop = set().union(*self.loops.values()) if self.loops else set()
+        self.verdicts = {}       # (clause, key) -> [("ok"|"viol"|"unread", detail, where)]
+
+    # ---- bookkeeping: one verdict per clause instance, the worst reading wins (violated > not read > satisfied)
+    def note(self, clause, key, outcome, detail="", where=None, fn=None, ok_detail=""):
+        self.verdicts.setdefault((clause, key), []).append((outcome, detail, where or self.rp.where(), fn or self.rp.key, ok_detail))
+
+    def flush(self):
+        for (clause, key), vs in self.verdicts.items():
+            viol = [v for v in vs if v[0] == "viol"]
+            unread = [v for v in vs if v[0] == "unread"]
+            if viol:
+                self.ctx.fail(self.K + clause, key, viol[0][1], where=viol[0][2], fn=viol[0][3])
+            elif unread:
+                self.ctx.unread(self.K + clause, key, unread[0][1], where=unread[0][2], fn=unread[0][3])
+            else:
+                self.ctx.ok(self.K + clause, key, nontrivial=True)
+        self.verdicts = {}
+
+    # ---- what an expression is about ----------------------------------------------------------------------------
+    def is_digits(self, e):
+        return strip_refs(e) == ("arg", self.sa)
+
+    def is_radix(self, e):
+        return strip_conv(e) == ("arg", self.ra)
+
+    def mentions_digits(self, e):
+        return expr_mentions(e, lambda y: y == ("arg", self.sa))
+
+    def chars_of_digits(self, it):
+        """True: `it` is chars() of the digits parameter (front to back, all of them); False: it is read and is
+        something else over the digits (reversed, skipped, another string); None: not read."""
+        it = strip_refs(it)
+        hops = 0
+        while it[0] == "call" and it[1] and INTO_ITER.search(it[1].get("path") or "") and it[2] and hops < 4:
+            it = strip_refs(it[2][0])
+            hops += 1
+        if it[0] == "call" and it[1] and it[1].get("path") == CHARS and it[2]:
+            return True if self.is_digits(it[2][0]) else False
+        if it[0] == "call" and it[1] and re.search(r"Iterator(>)?::(rev|skip|take|step_by|skip_while|take_while|filter)$", it[1].get("path") or "") and it[2] and self.mentions_digits(it):
+            return False
+        return None
+
+    def len_of_digits(self, e):
+        e = strip_conv(e)
+        if e[0] == "call" and e[1] and (e[1].get("path") or "").endswith("::len") and len(e[2]) == 1:
+            x = strip_refs(e[2][0])
+            if x[0] == "call" and x[1] and (x[1].get("path") or "").endswith("::as_bytes") and x[2]:
+                x = strip_refs(x[2][0])
+            return x == ("arg", self.sa)
+        return False
+
+    def closure_has_valuation(self, key):
+        for b in self.units:
+            if b.key == key or b.key.startswith(key + "::{closure#"):
+                for _, t in b.calls():
+                    p = callee_path(t) or ""
+                    if INT_PARSE.match(p) or p == TO_DIGIT or _AC.FOLD.search(p):
+                        return True
+        return False
+
+    # ---- atoms --------------------------------------------------------------------------------------------------
+    def fact_of(self, key, ex, val):
+        """What an atom of a path says about the digits:
+        ("empty", bool)                     the digit string is (not) empty
+        ("alldigits", bool, atom key)       every character is (not) a digit — the predicate is judged by all_digits_test
+        ("outcome",)                        the outcome of a valuation (from_str_radix Ok/Err, to_digit Some/None)
+        ("digits?",)                        a test of the digits this reader cannot classify
+        None                                not about the digits"""
+        if ex is None:
+            return None
+        x = strip_refs(ex)
+        if key[0] == "cmp" and x[0] == "binop" and isinstance(val, bool):
+            a, b = x[2], x[3]
+            ka = const_value(strip_conv(a)[1]) if strip_conv(a)[0] == "const" else None
+            kb = const_value(strip_conv(b)[1]) if strip_conv(b)[0] == "const" else None
+            if x[1] == "Eq":
+                if (self.len_of_digits(a) and kb == 0) or (self.len_of_digits(b) and ka == 0):
+                    return ("empty", val)
+            if x[1] == "Lt":
+                if ka == 0 and not isinstance(ka, bool) and self.len_of_digits(b):      # 0 < len
+                    return ("empty", not val)
+                if kb == 1 and not isinstance(kb, bool) and self.len_of_digits(a):      # len < 1
+                    return ("empty", val)
+            return ("digits?",) if self.mentions_digits(x) else None
+        if key[0] in ("pure", "site") and x[0] == "call" and x[1] and isinstance(val, bool):
+            pth = x[1].get("path") or ""
+            if pth.endswith("::is_empty") and len(x[2]) == 1:
+                y = strip_refs(x[2][0])
+                if y[0] == "call" and y[1] and (y[1].get("path") or "").endswith("::as_bytes") and y[2]:
+                    y = strip_refs(y[2][0])
+                if y == ("arg", self.sa):
+                    return ("empty", val)
+            m = re.search(r"PartialEq.*::(eq|ne)$", pth)
+            if m and len(x[2]) == 2:
+                p_, q_ = strip_refs(x[2][0]), strip_refs(x[2][1])
+                for u, v in ((p_, q_), (q_, p_)):
+                    if u == ("arg", self.sa) and v[0] == "const" and const_value(v[1]) == "":
+                        return ("empty", val if m.group(1) == "eq" else not val)
+            m2 = re.search(r"Iterator(>)?::(all|any)$", pth)
+            if m2 and len(x[2]) == 2 and self.chars_of_digits(x[2][0]) is True:
+                # all(is a digit) — or its De Morgan dual: not any(is not a digit); the predicate is judged by all_digits_test
+                return ("alldigits", val if m2.group(2) == "all" else not val, key)
+            return ("digits?",) if self.mentions_digits(x) else None
+        if key[0] == "variant":
+            y = x
+            inner, _ren = _PS.through_variant_preserving(y)
+            if inner is not None:
+                y = strip_refs(inner)
+            if y[0] == "call" and y[1] and (INT_PARSE.match(y[1].get("path") or "") or y[1].get("path") == TO_DIGIT or _AC.FOLD.search(y[1].get("path") or "")):
+                return ("outcome",)
+            return ("digits?",) if self.mentions_digits(x) else None
+        return ("digits?",) if self.mentions_digits(x) else None
+
+    def all_digits_test(self, key, ex):
+        """.radix-digit-test for one `chars(digits).all(pred)` atom: pred is char::is_digit(c, radix)
+        (`chars(digits).any(pred)`: pred is its negation)."""
+        x = strip_refs(ex)
+        clos = strip_refs(x[2][1])
+        inst = "every character of the digits must be a digit of the radix (char::is_digit(c, radix)) (%s)" % self.cfg
+        shown = "the all-digits test is %s over %s" % (show_expr(clos)[:60], show_expr(strip_refs(x[2][0]))[:60])
+        where = self.rp.where(x[3]) if len(x) > 3 and isinstance(x[3], int) and 0 <= x[3] < len(self.rp.blocks) else self.rp.where()
+        cc = _closure_cases(self.facts, clos, [ELEM])
+        if cc is None:
+            self.note(".radix-digit-test", inst, "unread", "the predicate of the all-digits test is not read (%s)" % shown, where)
+            return
+        calls = []
+
+        def find(y):
+            if y[0] == "call" and y[1] and y[1].get("path") == IS_DIGIT and len(y[2]) == 2:
+                calls.append(y)
+            return False
+        for conds, v in cc:
+            expr_mentions(v, find)
+            for _k, _val, kex in conds:
+                expr_mentions(kex, find)
+        wrong = [y for y in calls if not (strip_refs(y[2][0]) == ELEM and self.is_radix(y[2][1]))]
+        is_any = (x[1].get("path") or "").endswith("any")
+        v0 = strip_refs(cc[0][1]) if len(cc) == 1 and not cc[0][0] else ()
+        negated = False
+        while v0 and v0[0] == "unop" and v0[1] == "Not":
+            negated, v0 = not negated, strip_refs(v0[2])
+        single = bool(v0) and v0[0] == "call" and v0 in [strip_refs(y) for y in calls]
+        if wrong:
+            self.note(".radix-digit-test", inst, "viol", shown + ": it asks %s" % "; ".join(_show(y, 80) for y in wrong[:2]), where)
+        elif single and negated == is_any:
+            self.note(".radix-digit-test", inst, "ok")
+        elif single:
+            self.note(".radix-digit-test", inst, "viol", shown + ": %s" % ("it asks whether some character is a digit of the radix" if is_any else "it asks whether every character is not a digit of the radix"), where)
+        else:
+            self.note(".radix-digit-test", inst, "unread", "the predicate of the all-digits test is not the single question char::is_digit(c, radix) (%s)" % shown, where)
+
+    # ---- valuations on a path ---------------------------------------------------------------------------------------
+    def valuations(self, p):
+        """[(position on the path, instance name, block, in a loop?)]"""
+        out = []
+        for ev in p.events:
+            c, args, bi = ev[1], ev[2], ev[3]
+            pth = (c or {}).get("path") or ""
+            if bi not in p.blocks:
+                continue
+            pos = p.blocks.index(bi)
+            if INT_PARSE.match(pth):
+                out.append((pos, "integer parse", bi, bi in self.in_loop))
+            elif _AC.FOLD.search(pth) and (self.rp.key, bi) in self.acc_sites:
+                out.append((pos, "fold", bi, bi in self.in_loop))
+            elif pth == TO_DIGIT:
+                out.append((pos, "digit value", bi, bi in self.in_loop))
+            elif not ITER_ALL.search(pth):
+                clos = []
+                for a in args:
+                    expr_mentions(a, lambda y: clos.append(y[1]["closure"]) if (y[0] == "agg" and y[1].get("closure")) else False)
+                if any(self.closure_has_valuation(k) for k in clos):
+                    out.append((pos, "closure with the valuation", bi, bi in self.in_loop))
+        for h in self.acc_loops:
+            if h in p.blocks:
+                out.append((p.blocks.index(h), "digit loop", h, True))
+        return out
+
+    # ---- (a) guards ---------------------------------------------------------------------------------------------------
+    def guards(self):
+        w, rp, cfg = self.w, self.rp, self.cfg
+        empties, alls, fuzzy_before_valuation = set(), {}, False
+        any_valuation = False
+        for p in w.paths:
+            facts_ = [(w.atom_pos(p, k), self.fact_of(k, w.exprs.get(k), v)) for k, v in p.order]
+            for pos, f_ in facts_:
+                if f_ and f_[0] == "empty":
+                    empties.add(pos >= 0)
+                if f_ and f_[0] == "alldigits":
+                    alls[f_[2]] = w.exprs.get(f_[2])
+            for (vpos, name, bi, looped) in self.valuations(p):
+                any_valuation = True
+                before = [f_ for pos, f_ in facts_ if f_ and pos < vpos]
+                fuzzy = any(f_[0] == "digits?" for f_ in before)
+                fuzzy_before_valuation = fuzzy_before_valuation or fuzzy
+                # non-empty
+                inst = "digits are valued only when there is at least one (%s, %s)" % (name, cfg)
+                em = [f_[1] for f_ in before if f_[0] == "empty"]
+                if True in em:
+                    self.note(".radix-guard-empty", inst, "viol", "the %s at %s is reached on a path on which the digit string is empty" % (name, rp.where(bi)), rp.where(bi))
+                elif False in em:
+                    self.note(".radix-guard-empty", inst, "ok")
+                elif fuzzy:
+                    self.note(".radix-guard-empty", inst, "unread", "no emptiness test is read on a path to the %s at %s, but the path takes tests of the digits this reader does not classify" % (name, rp.where(bi)), rp.where(bi))
+                else:
+                    self.note(".radix-guard-empty", inst, "viol", "the %s at %s is reachable with an empty digit string: no path to it has established that there is a digit" % (name, rp.where(bi)), rp.where(bi))
+                # all digits
+                inst = "digits are valued only when all are digits of the radix (%s, %s)" % (name, cfg)
+                ad = [f_[1] for f_ in before if f_[0] == "alldigits"]
+                if False in ad:
+                    self.note(".radix-guard-digits", inst, "viol", "the %s at %s is reached on a path on which a character is not a digit of the radix" % (name, rp.where(bi)), rp.where(bi))
+                elif True in ad:
+                    self.note(".radix-guard-digits", inst, "ok")
+                elif fuzzy or looped:
+                    self.note(".radix-guard-digits", inst, "unread", "no `all characters are digits` test is read on a path to the %s at %s; the path runs through a loop or through tests of the digits this reader does not classify (a loop-form digit test is not read)" % (name, rp.where(bi)), rp.where(bi))
+                else:
+                    self.note(".radix-guard-digits", inst, "viol", "the %s at %s is reachable although a character is not a digit of the radix: no path to it has established that all are" % (name, rp.where(bi)), rp.where(bi))
+        for k, ex in alls.items():
+            self.all_digits_test(k, ex)
+        # existence of the two tests
+        some_fuzzy = any((self.fact_of(k, w.exprs.get(k), v) or ("",))[0] == "digits?" for p in w.paths for k, v in p.order)
+        inst = "an emptiness test on the digits exists (%s)" % cfg
+        if empties:
+            self.note(".radix-empty-test", inst, "ok")
+        elif some_fuzzy and (fuzzy_before_valuation or not any_valuation):
+            self.note(".radix-empty-test", inst, "unread", "no emptiness test of the digits is read; the parser tests the digits in a form this reader does not classify")
+        else:
+            self.note(".radix-empty-test", inst, "viol", "no test for an empty digit string: `0x` alone would be a number")
+        inst = "an all-digits test exists (%s)" % cfg
+        if alls:
+            self.note(".radix-digit-test-site", inst, "ok")
+        elif some_fuzzy or self.loops:
+            self.note(".radix-digit-test-site", inst, "unread", "no `chars().all(..)` test of the digits is read; the parser tests the digits in a loop or in a form this reader does not classify")
+        else:
+            self.note(".radix-digit-test-site", inst, "viol", "no test that every character is a digit of the radix")
+
+    # ---- (b) results ---------------------------------------------------------------------------------------------------
+    def path_result(self, p):
+        """The result expression of a complete path.  A path through a loop is acyclic in the summary (the loop body
+        is seen at most once), so a value carried around the loop is read from the definitions on the path and in
+        the loops it runs through (phi with ("cycle", local) marking the carried value)."""
+        hs = [h for h in self.loops if h in p.blocks]
+        if not hs:
+            return p.result, None
+        blocks = set(p.blocks)
+        for h in hs:
+            blocks |= self.loops[h]
+        with self.rp.restricted(blocks):
+            r = self.rp.trace(0)
+        return r, hs
+
+    def carried(self, h):
+        """Locals carried around the loop at h: {local: (seed expr, [step exprs])} (one definition before the loop,
+        definitions in it that read the local itself)."""
+        b, blocks = self.rp, self.loops[h]
+        out = {}
+        for l, ds in b.defs().items():
+            if b.is_arg(l):
+                continue
+            inside = [d for d in ds if d[1] in blocks and not d[-1]]
+            outside = [d for d in ds if d[1] not in blocks and not d[-1]]
+            if not inside or len(outside) != 1 or any(d[-1] for d in ds):
+                continue
+            steps = [b._trace_def(d, 0, frozenset([l])) for d in inside]
+            if any(expr_mentions(s_, lambda y: y == ("cycle", l)) for s_ in steps):
+                out[l] = (b._trace_def(outside[0], 0, frozenset()), steps)
+        return out
+
+    def results(self):
+        w, rp, cfg = self.w, self.rp, self.cfg
+        inst = "the parser returns None, the parsed integer as a double, or the digit accumulation (%s)" % cfg
+        kinds = set()
+        shown = []
+        for p in w.paths:
+            if p.truncated:
+                continue
+            res, hs = self.path_result(p)
+            if res is None:
+                self.note(".radix-results", inst, "unread", "a path returns a value that is not read", rp.where(p.blocks[-1]))
+                continue
+            r0 = strip_refs(res)
+            # a value carried around a loop of the path
+            inner = _some_payload(r0)
+            if hs and inner is not None:
+                x = strip_refs(inner)
+                hit = None
+                for h in hs:
+                    for l, (seed, steps) in self.carried(h).items():
+                        if x[0] == "phi" and x[1] == l:
+                            hit = (h, l, seed, steps)
+                if hit:
+                    kinds.add("accum")
+                    self.loop_accumulation(*hit)
+                    continue
+            if hs and expr_mentions(r0, lambda y: y[0] in ("cycle", "phi", "partial", "deep")):
+                self.note(".radix-results", inst, "unread", "a result computed in a loop is not read: %s" % show_expr(r0)[:120], rp.where(p.blocks[-1]))
+                continue
+            cases = _ON.cases_expr(self.facts, res)
+            if cases is None:
+                self.note(".radix-results", inst, "unread", "a result is not read as cases: %s" % show_expr(r0)[:120], rp.where(p.blocks[-1]))
+                continue
+            for conds, v in cases:
+                v = _ON.normalise(strip_refs(v))
+                kind = self.one_result(v, inst, p)
+                if kind:
+                    kinds.add(kind)
+                shown.append(show_expr(v)[:60])
+        if "none" not in kinds:
+            self.note(".radix-results", inst, "viol" if not any(v[0] == "unread" for v in self.verdicts.get((".radix-results", inst), [])) else "unread", "no path of the parser returns None (results: %s)" % shown[:4])
+        elif not (kinds & {"int", "accum"}):
+            self.note(".radix-results", inst, "unread", "no valuation of the digits (integer parse or accumulation) is read among the results: %s" % shown[:4])
+        else:
+            self.note(".radix-results", inst, "ok")
+
+    def one_result(self, v, inst, p):
+        rp, cfg = self.rp, self.cfg
+        where = rp.where(p.blocks[-1]) if p.blocks else rp.where()
+        if _is_none(v):
+            return "none"
+        inner = _some_payload(v)
+        has_int = expr_mentions(v, lambda y: y[0] == "call" and y[1] and INT_PARSE.match(y[1].get("path") or "") is not None)
+        fold = strip_refs(inner) if inner is not None else strip_refs(v)
+        if fold[0] == "call" and fold[1] and _AC.FOLD.search(fold[1].get("path") or "") and not has_int:
+            self.fold_accumulation(fold)
+            return "accum"
+        if has_int:
+            # ---- the integer path: Some(<payload of from_str_radix(digits, radix)> as f64)
+            i1 = "value = the integer parsed by from_str_radix, converted with `as f64` (%s)" % cfg
+            i2 = "the parsed integer is converted with `as f64` (%s)" % cfg
+            i3 = "the integer parser is given the digits and the radix themselves (%s)" % cfg
+            src = _payload_src(strip_conv(inner)) if inner is not None else None
+            if src is None or not (src[0] == "call" and src[1] and INT_PARSE.match(src[1].get("path") or "")) or strip_refs(strip_conv(inner))[0] != "payload":
+                self.note(".radix-int-path", i1, "viol", "the valuation is %s" % _show(v), where)
+                return "int"
+            self.note(".radix-int-path", i1, "ok")
+            x = strip_refs(inner)
+            cast_ok = x[0] == "cast" and x[1] == "IntToFloat" and str(x[3]) == "f64" and strip_refs(x[2])[0] == "payload"
+            self.note(".radix-int-cast", i2, "ok" if cast_ok else "viol", "the parsed integer becomes %s" % _show(x, 120), where)
+            args_ok = len(src[2]) == 2 and self.is_digits(src[2][0]) and strip_refs(src[2][1]) == ("arg", self.ra)
+            self.note(".radix-parse-args", i3, "ok" if args_ok else "viol", "from_str_radix(%s)" % ", ".join(show_expr(strip_refs(a))[:40] for a in src[2]), where)
+            return "int"
+        if inner is not None:
+            x = strip_refs(inner)
+            # a value this reader can follow to its leaves (constants, parameters, arithmetic, std calls) and that is
+            # neither the parsed integer nor an accumulation is another result; anything computed by the crate's own
+            # functions, held in a struct, or carried around a loop is not read
+            opaque = expr_mentions(x, lambda y: (y[0] == "call" and (y[1] is None or y[1].get("local"))) or y[0] in ("cycle", "phi", "partial", "deep", "undef", "field", "upvar", "rv", "other", "index", "cindex", "proj", "never"))
+            if opaque:
+                self.note(".radix-results", inst, "unread", "a result is not read: %s" % _show(v, 120), where)
+                return None
+            self.note(".radix-results", inst, "viol", "the parser also returns %s" % _show(v, 120), where)
+            return None
+        self.note(".radix-results", inst, "unread", "a result is not read: %s" % _show(v, 120), where)
+        return None
+
+    # ---- accumulations ---------------------------------------------------------------------------------------------------
+    def step_ok(self, v, is_acc, is_elem):
+        """True / False / None (not read): v is carried·(radix as f64) + (to_digit(c, radix) as f64)"""
+        v = strip_refs(v)
+        if v[0] != "binop":
+            return None
+        if v[1] != "Add":
+            return False
+        verdicts = []
+        for m_, d_ in ((strip_refs(v[2]), strip_refs(v[3])), (strip_refs(v[3]), strip_refs(v[2]))):
+            if not (m_[0] == "binop" and m_[1] == "Mul"):
+                continue
+            fs = [m_[2], m_[3]]
+            mul_ok = (is_acc(fs[0]) and self.is_radix(fs[1])) or (is_acc(fs[1]) and self.is_radix(fs[0]))
+            dd = strip_conv(d_)
+            dsrc = _payload_src(dd)
+            if dsrc is None:
+                dsrc = strip_payload(dd)
+            if not (dsrc[0] == "call" and dsrc[1] and dsrc[1].get("path") == TO_DIGIT and len(dsrc[2]) == 2):
+                verdicts.append(False)
+                continue
+            if not is_elem(dsrc[2][0]):
+                verdicts.append(False)
+                continue
+            if self.is_radix(dsrc[2][1]):
+                verdicts.append(bool(mul_ok))
+                continue
+            k = strip_conv(dsrc[2][1])
+            kv = const_value(k[1]) if k[0] == "const" else None
+            if isinstance(kv, int) and not isinstance(kv, bool) and kv >= 16 and mul_ok:
+                verdicts.append(None)      # to_digit(c, 16) equals to_digit(c, radix) on characters that passed is_digit(radix), radix ≤ 16
+            else:
+                verdicts.append(False)
+        if True in verdicts:
+            return True
+        if None in verdicts:
+            return None
+        return False
+
+    def seed_check(self, seed, where, fn):
+        inst = "the accumulation starts from 0 (%s)" % self.cfg
+        sv = _AC.seed_value(seed)
+        good = isinstance(sv, (int, float)) and not isinstance(sv, bool) and sv == 0.0 and isinstance(sv, float)
+        s0 = strip_refs(seed)
+        if s0[0] == "agg" and s0[1].get("variant") in ("None", "Err"):
+            self.note(".radix-fold-seed", inst, "viol", "the accumulation starts from %s" % show_expr(s0), where, fn)
+        elif good:
+            self.note(".radix-fold-seed", inst, "ok")
+        elif isinstance(sv, (int, float)) and not isinstance(sv, bool):
+            self.note(".radix-fold-seed", inst, "viol", "the accumulation starts from %s" % show_expr(strip_refs(seed)), where, fn)
+        else:
+            self.note(".radix-fold-seed", inst, "unread", "the seed of the accumulation is not a constant: %s" % show_expr(strip_refs(seed))[:80], where, fn)
+
+    def fold_accumulation(self, fold):
+        """A result that is `iter.fold(seed, step)` / `iter.try_fold(seed, step)`."""
+        cfg = self.cfg
+        where = self.rp.where()
+        fn = self.rp.key
+        for b, bi in self.fold_sites:       # the call site the value comes from (for the report only)
+            if bi == fold[3] and callee_path(b.blocks[bi]["term"]) == fold[1].get("path"):
+                where, fn = b.where(bi), b.key
+        name = (fold[1].get("path") or "").rsplit("::", 1)[1]
+        i_src = "the accumulation runs over the digits, front to back (%s)" % cfg
+        if name in ("rfold", "try_rfold"):
+            self.note(".radix-fold-source", i_src, "viol", "the accumulation runs over the digits back to front (%s)" % name, where, fn)
+        elif len(fold[2]) != 3:
+            self.note(".radix-fold-source", i_src, "unread", "%s with %d arguments" % (name, len(fold[2])), where, fn)
+            return
+        else:
+            src = self.chars_of_digits(fold[2][0])
+            if src is True:
+                self.note(".radix-fold-source", i_src, "ok")
+            elif src is False or strip_refs(fold[2][0])[0] == "call" and strip_refs(fold[2][0])[1] and strip_refs(fold[2][0])[1].get("path") == CHARS:
+                self.note(".radix-fold-source", i_src, "viol", "the accumulation runs over %s" % show_expr(strip_refs(fold[2][0]))[:100], where, fn)
+            else:
+                self.note(".radix-fold-source", i_src, "unread", "the sequence the accumulation runs over is not read: %s" % show_expr(strip_refs(fold[2][0]))[:100], where, fn)
+        self.seed_check(fold[2][1], where, fn)
+        i_step = "each step is acc·radix + digit(c) (%s)" % cfg
+        clo = strip_refs(fold[2][2])
+        cc = _closure_cases(self.facts, clo, [ACC, ELEM])
+        if cc is None:
+            self.note(".radix-fold-step", i_step, "unread", "the step of the accumulation is not read (%s)" % show_expr(clo)[:80], where, fn)
+            return
+        cb = self.facts.body(clo[1]["closure"])
+        is_acc = lambda y: strip_refs(y) == ACC or _payload_src(y) == ACC
+        is_elem = lambda y: strip_refs(y) == ELEM
+        nsteps = 0
+        for conds, v in cc:
+            v = _ON.normalise(strip_refs(v))
+            if _is_none(v):
+                # the accumulation gives up: only because the carried Option is None or the character has no digit value
+                why = any(k[0] == "variant" and val in ("None", "Break", "Err") for k, val, _kex in conds)
+                if not why:
+                    self.note(".radix-fold-step", i_step, "unread", "the step returns None under a condition that is not read", cb.where(), cb.key)
+                continue
+            val = _some_payload(v)
+            val = v if val is None else val
+            nsteps += 1
+            r = self.step_ok(val, is_acc, is_elem)
+            if r is True:
+                self.note(".radix-fold-step", i_step, "ok")
+            elif r is False:
+                self.note(".radix-fold-step", i_step, "viol", "the step of the accumulation is %s" % _show(val), cb.where(), cb.key)
+            else:
+                self.note(".radix-fold-step", i_step, "unread", "the step of the accumulation is not read: %s" % _show(val), cb.where(), cb.key)
+        if not nsteps:
+            self.note(".radix-fold-step", i_step, "unread", "the step of the accumulation never produces a value", cb.where(), cb.key)
+
+    def loop_accumulation(self, h, l, seed, steps):
+        """A result that is Some(<f64 carried around the loop at h>)."""
+        rp, cfg = self.rp, self.cfg
+        where = rp.where(h)
+        self.seed_check(seed, where, rp.key)
+        i_step = "each step is acc·radix + digit(c) (%s)" % cfg
+        i_src = "the accumulation runs over the digits, front to back (%s)" % cfg
+        elems = []
+
+        def is_elem(y):
+            s_ = _payload_src(y)
+            if s_ is not None and s_[0] == "call" and s_[1] and ITER_NEXT.search(s_[1].get("path") or "") and s_[2] and len(s_) > 3 and s_[3] in self.loops[h]:
+                elems.append(s_)
+                return True
+            return False
+        is_acc = lambda y: strip_refs(y) == ("cycle", l)
+        for st in steps:
+            v = _ON.normalise(strip_refs(st))
+            r = self.step_ok(v, is_acc, is_elem)
+            if r is True:
+                self.note(".radix-fold-step", i_step, "ok")
+            elif r is False:
+                self.note(".radix-fold-step", i_step, "viol", "the step of the accumulation is %s" % _show(v), where)
+            else:
+                self.note(".radix-fold-step", i_step, "unread", "the step of the accumulation is not read: %s" % _show(v), where)
+        # the sequence: next() of chars() of the digits, and the loop is left only when it is exhausted or with None
+        if not elems:
+            self.note(".radix-fold-source", i_src, "unread", "the element the loop accumulates is not read as the payload of next() in the loop", where)
+            return
+        for s_ in elems:
+            src = self.chars_of_digits(s_[2][0])
+            if src is True:
+                self.note(".radix-fold-source", i_src, "ok")
+            elif src is False:
+                self.note(".radix-fold-source", i_src, "viol", "the accumulation runs over %s" % show_expr(strip_refs(s_[2][0]))[:100], where)
+            else:
+                self.note(".radix-fold-source", i_src, "unread", "the sequence the loop runs over is not read: %s" % show_expr(strip_refs(s_[2][0]))[:100], where)
+        early = self.loop_leaves_with_a_value(h, {s_[3] for s_ in elems})
+        if early:
+            self.note(".radix-fold-source", i_src, "viol", "the accumulation loop is left before the digits are exhausted on a path that still returns a number (%s)" % ", ".join(rp.where(u) for u, _ in early[:2]), rp.where(early[0][0]))
+
+    def loop_leaves_with_a_value(self, h, next_sites):
+        """Exit edges of the loop at h, other than the exhaustion (None) edge of its next(), from which a Some(..) can
+        be returned."""
+        rp, blocks = self.rp, self.loops[h]
+        none_edges = set()
+        for sb in blocks:
+            tt = rp.blocks[sb]["term"]
+            if tt["k"] != "SwitchInt":
+                continue
+            e = rp.trace(tt["discr"])
+            if e[0] == "discr":
+                x = strip_refs(e[1])
+                if x[0] == "call" and x[1] and ITER_NEXT.search(x[1].get("path") or "") and x[3] in next_sites:
+                    r = switch_edges_for_variant(rp, sb, "None")
+                    if r:
+                        none_edges.add((sb, r[0]))
+        bad = []
+        for u in sorted(blocks):
+            for v in rp.succs(u):
+                if v in blocks or (u, v) in none_edges or rp.blocks[v].get("cleanup"):
+                    continue
+                w2 = _PS.Walker(rp, start=v, max_paths=300)
+                if w2.overflow or any(not (q.result is not None and _is_none(q.result)) for q in w2.paths if not q.truncated):
+                    bad.append((u, v))
+        return bad
+
+    # ---- the whole reading ---------------------------------------------------------------------------------------------------
+    def run(self):
+        rp, cfg = self.rp, self.cfg
+        w = _PosWalker(rp, max_paths=3000)
+        self.w = w
+        if w.overflow or not w.paths:
+            for cl_ in (".radix-empty-test", ".radix-digit-test-site", ".radix-guard-empty", ".radix-guard-digits", ".radix-results"):
+                self.ctx.unread(self.K + cl_, "digit parser (%s)" % cfg, "the digit parser has too many paths to summarise", where=rp.where(), fn=rp.key)
+            return
+        accs = _AC.find(_AccumUnit(rp, self.units))
+        self.acc_sites = {(a.body.key, a.bi) for a in accs if a.form != "loop"}
+        self.fold_sites = [(a.body, a.bi) for a in accs if a.form != "loop"]
+        self.acc_loops = sorted({a.bi for a in accs if a.form == "loop" and a.body is rp})
+        # every integer parse is given the digits and the radix themselves (wherever its result goes)
+        i3 = "the integer parser is given the digits and the radix themselves (%s)" % cfg
+        for b in self.units:
+            for bi, t in b.calls():
+                if INT_PARSE.match(callee_path(t) or "") and len(t["args"]) == 2:
+                    a0, a1 = strip_refs(b.xtrace(t["args"][0])), strip_refs(b.xtrace(t["args"][1]))
+                    good = a0 in (("arg", self.sa), ("carg", rp.key, self.sa)) and a1 in (("arg", self.ra), ("carg", rp.key, self.ra))
+                    self.note(".radix-parse-args", i3, "ok" if good else "viol", "from_str_radix(%s, %s)" % (show_expr(a0)[:40], show_expr(a1)[:40]), b.where(bi), b.key)
+        self.guards()
+        self.results()
+        self.flush()
